@@ -509,7 +509,15 @@ func (m *Machine) doDispose(force bool) {
 	// dispose chans
 
 	close(m.errInternal)
+	if force {
+		// the other locks are skipped when forcing, but the subscription indexes
+		// are written by concurrent When* / NewStateCtx calls
+		m.subs.Mx.Lock()
+	}
 	m.subs.dispose()
+	if force {
+		m.subs.Mx.Unlock()
+	}
 	verifhook.Point("dispose.subs-closed")
 	for _, mut := range m.queue {
 		if !mut.IsCheck {
